@@ -839,7 +839,7 @@ package engine
 //@   loop 2 invariant window: (last != 0 ==> len(matches.store) <= last) && (last == 0 ==> len(matches.store) == max(0, matchNumber - skip)) && (!all ==> matchNumber <= skip + take) [C04]
 //@   loop 1 invariant first: last == 0 && len(matches.store) > 0 ==> matches.store[0].MatchNumber == skip + 1 [C04]
 //@   loop 2 invariant first: last == 0 && len(matches.store) > 0 ==> matches.store[0].MatchNumber == skip + 1 [C04]
-//@   loop 1 invariant program: len(insts) > 0 [C09]
+//@   loop 1 invariant program: len(insts) > 0
 //@   loop 1 invariant scan: rdInv(reader) && rdData(reader) == d && 0 <= fileOffset && fileOffset < reader.size && startsAt(d, fileOffset, lineNumber, columnNumber) && matchNumber >= 0
 //@   loop 1 invariant queue: matches != nil && fresh(matches) && (matches.store.ref == 0 || fresh(matches.store))
 //@   loop 1 invariant each: forall k :: { matches.store[k] } 0 <= k && k < len(matches.store) ==> matchOk(matches.store[k], d, filename) && matches.store[k].Offset.End <= fileOffset && matches.store[k].MatchNumber <= matchNumber && matches.store[k].MatchNumber > skip
@@ -855,7 +855,7 @@ package engine
 //@   loop 2 invariant ordered: forall k :: { matches.store[k] } { matches.store[k + 1] } 0 <= k && k + 1 < len(matches.store) ==> matches.store[k].Offset.End <= matches.store[k + 1].Offset.Start
 //@   loop 2 invariant numbered: forall k :: { matches.store[k] } { matches.store[k + 1] } 0 <= k && k + 1 < len(matches.store) ==> matches.store[k + 1].MatchNumber == matches.store[k].MatchNumber + 1
 //@   loop 2 invariant newest: len(matches.store) > 0 ==> matches.store[len(matches.store) - 1].MatchNumber == matchNumber
-//@   loop 2 invariant fetch: len(insts) > 0 && (currentState.status == INPROCESS ==> currentState.programCounter < len(insts)) [C09]
+//@   loop 2 invariant fetch: len(insts) > 0 && (currentState.status == INPROCESS ==> currentState.programCounter < len(insts))
 //@   loop 2 presumes pc: currentState.status == INPROCESS ==> 0 <= currentState.programCounter && (currentState.programCounter < len(insts) ==> insts[currentState.programCounter] != nil)
 
 // ---- JSON rendering (C17) ----
